@@ -17,14 +17,21 @@ import (
 	"fmt"
 	"io"
 	"net"
+	"os"
 	"sort"
+	"strings"
 	"sync"
+	"sync/atomic"
 	"testing"
 	"time"
 )
 
 const grpTopic = "vt"
-const grpGroup = "vg"
+
+// every scenario has its own tag "verif-<pid>-<seq>": client ids are "<tag>-c1", ..., the group is "vg-<tag>". The simulated
+// cluster turns away (closes, unrecorded, nothing stored) every request whose client id or group id is not the scenario's -
+// a client of another verification process redialling a recycled port, or a straggler of an abandoned scenario of this one.
+var grpSeq int64
 
 // ---------------------------------------------------------------- scenario script
 
@@ -59,28 +66,28 @@ type grpClientScript struct {
 }
 
 type grpScenario struct {
-	ID        string            `json:"id"`
-	Fam       string            `json:"fam"`
-	NP        int               `json:"np"`
-	LogLen    int               `json:"loglen"`
-	LogStart  int               `json:"logstart"`
-	Initial   int               `json:"initial"`
-	Auto      string            `json:"auto"` // fast | slow | off
-	Strategy  string            `json:"strategy"`
-	Committed []int64           `json:"committed"`
-	GrowAt    string            `json:"growat"` // "" | "claim": partition count grows when c1's handler reaches its point
-	Refresh0  bool              `json:"refresh0"` // Metadata.RefreshFrequency = 0 (background refresh disabled)
-	DClose    bool              `json:"dclose"`   // every group is closed a second time after Close returned
-	NoNet     bool              `json:"nonet"`    // never end a call by the safety-net context cancel
-	DFKind    string            `json:"dfkind"`   // how the start of a claim is failed: notleader (default) | conn
-	NPThen       int            `json:"npthen"`       // > 0: the topic has this many partitions from the moment c1's first Consume call returned
-	SessTO       int            `json:"sessto"`       // ms; > 0: Consumer.Group.Session.Timeout, ENFORCED by the simulated coordinator (heartbeat interval 50 ms)
-	RRetry       *int           `json:"rretry"`       // Consumer.Group.Rebalance.Retry.Max (default 2)
-	ORetry       *int           `json:"oretry"`       // Consumer.Offsets.Retry.Max (default 3)
-	Leaderless   *int           `json:"leaderless"`   // this partition is listed by the metadata with ErrLeaderNotAvailable (leader -1)
-	LookupFail   bool           `json:"lookupfail"`   // once the coordinator is down, coordinator lookups are answered with an error too
-	ReturnErrors bool           `json:"returnerrors"` // Consumer.Return.Errors
-	Clients   []grpClientScript `json:"clients"`
+	ID           string            `json:"id"`
+	Fam          string            `json:"fam"`
+	NP           int               `json:"np"`
+	LogLen       int               `json:"loglen"`
+	LogStart     int               `json:"logstart"`
+	Initial      int               `json:"initial"`
+	Auto         string            `json:"auto"` // fast | slow | off
+	Strategy     string            `json:"strategy"`
+	Committed    []int64           `json:"committed"`
+	GrowAt       string            `json:"growat"`       // "" | "claim": partition count grows when c1's handler reaches its point
+	Refresh0     bool              `json:"refresh0"`     // Metadata.RefreshFrequency = 0 (background refresh disabled)
+	DClose       bool              `json:"dclose"`       // every group is closed a second time after Close returned
+	NoNet        bool              `json:"nonet"`        // never end a call by the safety-net context cancel
+	DFKind       string            `json:"dfkind"`       // how the start of a claim is failed: notleader (default) | conn
+	NPThen       int               `json:"npthen"`       // > 0: the topic has this many partitions from the moment c1's first Consume call returned
+	SessTO       int               `json:"sessto"`       // ms; > 0: Consumer.Group.Session.Timeout, ENFORCED by the simulated coordinator (heartbeat interval 50 ms)
+	RRetry       *int              `json:"rretry"`       // Consumer.Group.Rebalance.Retry.Max (default 2)
+	ORetry       *int              `json:"oretry"`       // Consumer.Offsets.Retry.Max (default 3)
+	Leaderless   *int              `json:"leaderless"`   // this partition is listed by the metadata with ErrLeaderNotAvailable (leader -1)
+	LookupFail   bool              `json:"lookupfail"`   // once the coordinator is down, coordinator lookups are answered with an error too
+	ReturnErrors bool              `json:"returnerrors"` // Consumer.Return.Errors
+	Clients      []grpClientScript `json:"clients"`
 }
 
 const grpHbRetry = 1 // Metadata.Retry.Max: heartbeats lost in a row that the session survives
@@ -132,37 +139,41 @@ type grpSim struct {
 	wg    sync.WaitGroup
 	dead  bool
 
-	np       int
-	state    string // Empty | Preparing | Completing | Stable
-	gen      int32
-	members  map[string]*grpMember
-	order    []string
-	leader   string
-	protocol string
-	nextID   int
-	store    map[int32]int64
-	clients  map[string]*grpClientState
-	simErrs  []string
-	expect   map[string]bool // clients started up front: the first join round waits for all of them
-	coord    int             // listener (broker id - 1) that currently is the group's coordinator
-	hbOK     int             // heartbeats answered OK (the watchdog's clock)
-	hbSeen   map[string]int  // heartbeat requests seen per client
-	nretry   int             // refused coordinator lookups / initial OffsetFetches (a watchdog clock: a retry loop is spinning)
-	lookupFail map[string]bool   // coordinator lookups of this client are answered COORDINATOR_NOT_AVAILABLE
-	lookupLate map[string]bool   // ... from the moment its JoinGroup was answered NOT_COORDINATOR (scripted)
-	lookupN    map[string]int
-	onLookup   map[string]func() // one-shot hook at the fifth refused lookup (Close during the retry loop)
-	fetchFails map[string]int    // refused OffsetFetch requests of the current call (only the first three are logged)
-	failOff  map[string]int  // client -> partition whose ListOffsets requests fail (claim start fails)
+	np          int
+	state       string // Empty | Preparing | Completing | Stable
+	gen         int32
+	members     map[string]*grpMember
+	order       []string
+	leader      string
+	protocol    string
+	nextID      int
+	store       map[int32]int64
+	clients     map[string]*grpClientState
+	simErrs     []string
+	expect      map[string]bool // clients started up front: the first join round waits for all of them
+	tag         string          // "verif-<pid>-<seq>"
+	group       string          // the scenario's consumer group id
+	coord       int             // listener (broker id - 1) that currently is the group's coordinator
+	hbOK        int             // heartbeats answered OK (the watchdog's clock)
+	hbSeen      map[string]int  // heartbeat requests seen per client
+	nretry      int             // refused coordinator lookups / initial OffsetFetches (a watchdog clock: a retry loop is spinning)
+	lookupFail  map[string]bool // coordinator lookups of this client are answered COORDINATOR_NOT_AVAILABLE
+	lookupLate  map[string]bool // ... from the moment its JoinGroup was answered NOT_COORDINATOR (scripted)
+	lookupN     map[string]int
+	onLookup    map[string]func() // one-shot hook at the fifth refused lookup (Close during the retry loop)
+	fetchFails  map[string]int    // refused OffsetFetch requests of the current call (only the first three are logged)
+	failOff     map[string]int    // client -> partition whose ListOffsets requests fail (claim start fails)
 	failFetch   map[string]string // client -> how its OffsetFetch requests fail during the current Consume call
 	onFetchFail map[string]func() // one-shot hook at the first refused OffsetFetch (Close racing with the failing set-up)
-	connLn   map[net.Conn]int
-	down     map[int]bool // listeners taken down (unreachable coordinator)
+	connLn      map[net.Conn]int
+	down        map[int]bool // listeners taken down (unreachable coordinator)
 }
 
 func newGrpSim(rec *vRec, sc *grpScenario) (*grpSim, error) {
 	s := &grpSim{rec: rec, sc: sc, conns: map[net.Conn]bool{}, np: sc.NP, state: "Empty", members: map[string]*grpMember{},
 		store: map[int32]int64{}, clients: map[string]*grpClientState{}}
+	s.tag = fmt.Sprintf("verif-%d-%d", os.Getpid(), atomic.AddInt64(&grpSeq, 1))
+	s.group = "vg-" + s.tag
 	s.cond = sync.NewCond(&s.mu)
 	for p, off := range sc.Committed {
 		if off >= 0 {
@@ -409,8 +420,48 @@ func (s *grpSim) lookupRefused(cl string) bool {
 	return true
 }
 
+// clientID is the client id a scenario's client has to present
+func (s *grpSim) clientID(name string) string { return s.tag + "-" + name }
+
+// foreign: the request does not belong to this scenario (client id or group id of somebody else)
+func (s *grpSim) foreign(req *request) (string, bool) {
+	prefix := s.tag + "-"
+	if !strings.HasPrefix(req.clientID, prefix) {
+		return "", true
+	}
+	cl := req.clientID[len(prefix):]
+	if _, ok := s.clients[cl]; !ok {
+		return "", true
+	}
+	group := ""
+	switch r := req.body.(type) {
+	case *JoinGroupRequest:
+		group = r.GroupId
+	case *SyncGroupRequest:
+		group = r.GroupId
+	case *HeartbeatRequest:
+		group = r.GroupId
+	case *LeaveGroupRequest:
+		group = r.GroupId
+	case *OffsetCommitRequest:
+		group = r.ConsumerGroup
+	case *OffsetFetchRequest:
+		group = r.ConsumerGroup
+	case *FindCoordinatorRequest:
+		group = r.CoordinatorKey
+	case *ConsumerMetadataRequest:
+		group = r.ConsumerGroup
+	default:
+		return cl, false
+	}
+	return cl, group != s.group
+}
+
 func (s *grpSim) handle(req *request, li int) (encoderWithHeader, bool) {
-	cl := req.clientID
+	cl, alien := s.foreign(req)
+	if alien {
+		return nil, true // connection closed, nothing recorded, nothing stored
+	}
 	if res := s.stale(cl, li, req.body); res != nil {
 		return res, false
 	}
@@ -1441,10 +1492,10 @@ func grpStrategy(name string) BalanceStrategy {
 	return BalanceStrategyRange
 }
 
-func grpConfig(sc *grpScenario, name string) *Config {
+func grpConfig(sc *grpScenario, clientID string) *Config {
 	conf := NewConfig()
 	conf.Version = V0_10_2_0
-	conf.ClientID = name
+	conf.ClientID = clientID
 	conf.Consumer.Return.Errors = sc.ReturnErrors
 	conf.Consumer.Offsets.Initial = int64(sc.Initial)
 	conf.Consumer.Offsets.AutoCommit.Enable = sc.Auto != "off"
@@ -1686,7 +1737,7 @@ func grpRunScenario(t *testing.T, rec *vRec, sc *grpScenario) (out grpOutcome, e
 		cs := &sc.Clients[i]
 		var g ConsumerGroup
 		for k := 0; k < 5; k++ {
-			g, err = NewConsumerGroup([]string{sim.addr(0)}, grpGroup, grpConfig(sc, cs.C))
+			g, err = NewConsumerGroup([]string{sim.addr(0)}, sim.group, grpConfig(sc, sim.clientID(cs.C)))
 			if err == nil {
 				break
 			}
@@ -1791,4 +1842,3 @@ func TestVerifGroup(t *testing.T) {
 	sum["events"] = rec.events
 	vWriteJSON(t, "summary.json", sum)
 }
-
